@@ -138,23 +138,26 @@ ALL_SIMPLE = None
 def explore(ctx, factor, bs):
     rng = ctx.rng
     n = ctx.pick(1000, 20000) * factor
-    import gen
+    import controls_gen
     for i in range(n):
         form = formcommon.structure_form(rng, tier_big=not ctx.quick(), external_in_repeat=True)
-        # layout noise that must vanish: blank rows, disabled rows
-        if rng.random() < 0.3:
+        # layout noise that must vanish: blank rows, rows marked disabled (of every kind)
+        if rng.random() < 0.35:
             rows = []
             for row in form["survey"]:
                 if rng.random() < 0.15:
                     rows.append({})
-                if rng.random() < 0.1 and not row.get("type", "").startswith(("begin", "end")):
-                    rows.append({"type": "text", "name": "dis" + str(len(rows)), "label": "x", "disabled": rng.choice(["yes", "true", "TRUE"])})
                 rows.append(row)
             form["survey"] = rows
+            form = controls_gen.disabled_noise(rng, form)
+            ctx.count("disabled noise")
         form_case(ctx, form)
-    import controls_gen
     for i in range(ctx.pick(1500, 20000) * factor):
-        form_case(ctx, controls_gen.attr_form(rng, big=not ctx.quick()), family="attributes")
+        form = controls_gen.attr_form(rng, big=not ctx.quick())
+        if rng.random() < 0.25:
+            form = controls_gen.disabled_noise(rng, form)
+            ctx.count("disabled noise")
+        form_case(ctx, form, family="attributes")
 
 
 def replay(ctx, payload, bs):
